@@ -23,7 +23,7 @@ PROPERTY = "C11"
 LEVEL = "exploration"
 RULE = (
     "single contexts: all 794 rule graphs with <=4 of the 12 directed edges over 4 dimensionalities x 16 (src,dst) dimension pairs x 2 units per dimension; stacks: all ordered pairs of the 79 graphs with <=2 "
-    "rules (thorough: + all ordered triples of the 13 with <=1 rule) x 12 pairs x 4 activation forms; parameters: 3 sources x 4 forms; redefinitions: 3 units x inside/outside/nested; bundled contexts: every "
+    "rules (thorough: + all ordered triples of the 13 with <=1 rule) x 12 pairs x 4 activation forms; parameters: 3 sources x 4 forms; activation histories: all sequences of <=3 (4) activations over 21 events (4 contexts declared in text or built programmatically, rule endpoints written as a derived dimension, 3 activation forms, with / without a per-activation parameter, nestings); redefinitions: 3 units x inside/outside/nested; bundled contexts: every "
     "rule x <=3x3 unit pairs x parameter values. non-trivial = distinct (rule set(s), src, dst, form) with src dimension != dst dimension"
 )
 ASSUMPTIONS = [
@@ -339,6 +339,109 @@ def run_params(acc):
     acc.sample({"clause": "parameters", "cases": [c[0] for c in cases]})
 
 
+# ----------------------------------------------------------------------------- activation histories of parameterised contexts
+
+PH_LINES = BASE_LINES + ["[E] = [A] / [B]", "ue = ua / ub", "ke = 10 * ue"] + [
+    "@context(n=101) t1 = t1x",
+    "    [E] -> [C]: value * 3 * n * uc / ue",
+    "@end",
+    "@context t0",
+    "    [E] -> [A]: value * 11 * ua / ue",
+    "@end",
+]
+# context -> (target unit, prime, declared default of n or None)
+PH_CTX = {"t1": ("uc", 3, 101), "t0": ("ua", 11, None), "g1": ("ud", 5, 211), "g0": ("ub", 7, None)}
+PH_K = 103
+
+
+def ph_registry():
+    """two contexts declared in the text and two built programmatically; every rule starts at a DERIVED dimension
+    written by name ([E] = [A]/[B]), so the registry has to rewrite the endpoints to base dimensions when it first
+    activates the context"""
+    pint = core.boot()
+    ureg = regs.tiny(PH_LINES, non_int_type="Fraction")
+    g1 = pint.Context("g1", defaults={"n": 211})
+    g1.add_transformation("[E]", "[D]", lambda ureg, x, n, **kw: x * 5 * n * ureg.Quantity(1, "ud/ue"))
+    ureg.add_context(g1)
+    g0 = pint.Context("g0")
+    g0.add_transformation("[E]", "[B]", lambda ureg, x, **kw: x * 7 * ureg.Quantity(1, "ub/ue"))
+    ureg.add_context(g0)
+    return ureg
+
+
+def ph_events():
+    ev = []
+    for c, (tgt, p, dflt) in PH_CTX.items():
+        ev.append(("to", c, None))
+        ev.append(("with", c, None))
+        ev.append(("enable", c, None))
+        if dflt is not None:
+            ev.append(("to", c, PH_K))
+            ev.append(("with", c, PH_K))
+            ev.append(("enable", c, PH_K))
+    # an enclosing parameterised context supplies n to an inner one that is entered without it
+    ev.append(("nested", "t1", "g1"))
+    ev.append(("nested", "g1", "t1"))
+    ev.append(("nested", "g1", "g0"))
+    return ev
+
+
+def ph_apply(ureg, ev):
+    """-> (observed, expected) magnitudes of converting 1 ue with the event's context active"""
+    Q = ureg.Quantity
+    form, c, k = ev
+    if form == "nested":
+        outer, inner = c, k
+        tgt, p, dflt = PH_CTX[inner]
+        want = p * (107 if dflt is not None else 1)
+        with ureg.context(outer, n=107):
+            with ureg.context(inner):
+                return Q(1, "ue").to(tgt).magnitude, want
+    tgt, p, dflt = PH_CTX[c]
+    want = p * ((k if k is not None else dflt) if dflt is not None else 1)
+    kw = {} if k is None else {"n": k}
+    if form == "to":
+        return Q(1, "ue").to(tgt, c, **kw).magnitude, want
+    if form == "with":
+        with ureg.context(c, **kw):
+            return Q(1, "ke").to(tgt).magnitude / 10, want
+    ureg.enable_contexts(c, **kw)
+    try:
+        return Q(1, "ue").to(tgt).magnitude, want
+    finally:
+        ureg.disable_contexts()
+
+
+def run_param_histories(acc, depth, first):
+    """every sequence of <= depth activations (with and without a per-activation parameter, in the three
+    activation forms, plus nestings) on a fresh registry: each activation must convert with ITS parameter value,
+    whatever was activated before and however"""
+    evs = ph_events()
+    acc.dim("activation events", len(evs))
+    for n in range(1, depth + 1):
+        for rest in itertools.product(evs, repeat=n - 1):
+            hist = (first,) + rest
+            ureg = ph_registry()
+            for i, ev in enumerate(hist):
+                acc.ev()
+                o = call(lambda: ph_apply(ureg, ev))
+                if ureg._active_ctx.contexts:
+                    ureg.disable_contexts()
+                if o[0] != "ok" or o[1][0] != o[1][1]:
+                    kind = "raises" if o[0] != "ok" else "wrong-parameter-value-or-rule-used"
+                    acc.violation(["activation-history", ev[0], kind, "first-activation" if i == 0 else "after-" + hist[i - 1][0] + ("(n=)" if hist[i - 1][2] not in (None,) and hist[i - 1][0] != "nested" else "")],
+                                  {"history": [list(e) for e in hist], "step": i}, o[1][1] if o[0] == "ok" else "a number", repr(o[1][0] if o[0] == "ok" else o[1]))
+                    break
+            acc.nt(("ph", hist))
+            # afterwards nothing is active and plain conversions across dimensions are refused again
+            acc.ev()
+            o = call(lambda: ureg.Quantity(1, "ue").to("uc"))
+            if o[0] != "exc" or o[1] != "DimensionalityError":
+                acc.violation(["activation-history", "outside", "conversion-allowed-with-no-context-active", ""], {"history": [list(e) for e in hist]}, "DimensionalityError", repr(o))
+    acc.outcome("activation-histories")
+    acc.sample({"clause": "activation-history", "history": [["to", "g1", 103], ["with", "g1", None]], "expected": [5 * 103, 5 * 211]})
+
+
 # ----------------------------------------------------------------------------- redefinitions
 
 
@@ -504,6 +607,8 @@ def shards(tier, seed):
         for b in range(8):
             out.append(("stacks", 3, 1, b, 8))
     out += [("params",), ("redefs",), ("bundled",)]
+    for ev in ph_events():
+        out.append(("param-hist", 3 if tier == "quick" else 4, list(ev)))
     return out
 
 
@@ -515,6 +620,8 @@ def run_shard(acc, shard, tier, seed):
         run_stacks(acc, shard[1], shard[2], shard[3], shard[4])
     elif k == "params":
         run_params(acc)
+    elif k == "param-hist":
+        run_param_histories(acc, shard[1], tuple(shard[2]))
     elif k == "redefs":
         run_redefs(acc)
     elif k == "bundled":
@@ -537,6 +644,9 @@ def replay(rec):
                 run_stacks(acc, 3, 1, b, 8)
     elif site[0] == "parameters":
         run_params(acc)
+    elif site[0] == "activation-history":
+        h = rec["case"]["history"]
+        run_param_histories(acc, len(h), tuple(h[0]))
     elif site[0] == "redefinition":
         run_redefs(acc)
     else:
@@ -552,7 +662,7 @@ MANIFEST = {
     "per-call and in a with-block, with the compatibility predicates): the exact result must be the prime product of SOME shortest chain, same-dimension conversions must be unchanged, unreachable targets must raise "
     "DimensionalityError, and nothing may remain available outside. All ordered pairs of the 79 contexts with <=2 rules (thorough: all ordered triples of the 13 with <=1) are stacked through 4 activation forms with "
     "per-(context, edge) primes, deciding 'most recent wins'. Parameter resolution (call keyword > enclosing context > declared default) is checked with prime-valued parameters through every form including the "
-    "decorator and context objects; redefinitions with transitive dependents inside/outside/nested and on re-entry; every rule of the 7 bundled contexts is re-evaluated from its equation text with R1 monomials.",
+    "decorator and context objects, and over ALL activation histories up to depth 3 (4) of 21 events on a registry whose four contexts (two declared in text, two built with Context()/add_context) start their rules at a derived dimension written by name: each activation, in each form, with or without its own parameter value, after every possible earlier activation, must convert with its own parameter and leave nothing active; redefinitions with transitive dependents inside/outside/nested and on re-entry; every rule of the 7 bundled contexts is re-evaluated from its equation text with R1 monomials.",
     "note": "Trusted: the 40-line BFS reference and unique factorisation; R1 for bundled constants. Not asserted: which of several equally short chains is taken; which enclosing context supplies a parameter "
     "when several differ; compatible-unit listings under a context. Graphs with more than 4 rules or more than 4 dimensionalities are outside the bound.",
     "ref": "DESIGN.md §4 C11",
